@@ -23,6 +23,11 @@ Top-level clauses (from the property statement), enforced at run time on the rea
                        lines converted at the end (class held-lines-differ: a line that was handed out must not
                        change when the generator advances)
 
+Colour dimension: the clauses above are demanded for every documented way of asking for output without
+colours - a colour specification (palette form, colors_conf form, no_color form), see COLOR SPECIFICATIONS below.
+There the text that must read back is in the first place the output as it is printed, str(result) (classes
+escape-characters:<default-palette|palette-class|palette-object> / str-output), and plain_text() as everywhere.
+
 The oracle is the two stdlib parsers + the input value; the printer is never used to compute an
 expectation.  `ref_*` below is a reference *length* model of the one-line rendering used only to steer
 the sweep towards the thresholds (one-line: offset + len < 200; per-line wrap: 150) - no clause uses it.
@@ -41,6 +46,7 @@ import struct
 import sys
 
 from ak.ppobj import PrettyPrinter
+from ak.color import ColorsConfig, ConfColor
 
 MODES = ('json', 'python')
 BUDGET_S = 5.0             # per rendered value; an overrun is reported as a violation
@@ -49,6 +55,124 @@ _OVERRUNS = None           # multiprocessing.Value shared with the forked worker
 T_ONELINE = 200            # read from ak/ppobj.py (steering only)
 T_WRAP = 150               # read from ak/ppobj.py (steering only)
 OFFSETS = (0, 2, 4, 6)
+
+
+# --------------------------------------------------------------------------- COLOR SPECIFICATIONS
+# The documented ways of passing colours to the printer (PrettyPrinter.__call__: palette = "PPPalette-derived
+# class or an object of such class", no_color, colors_conf) and of making the colours empty (no_color=True of the
+# call; Palette(..., no_color=True): "a palette object which produces text without any coloring effects";
+# ColorsConfig(..., no_color=True): "ignores all other config settings and creates 'no-color' config").
+# A colour specification is (palette form, colors_conf form, no_color form); the forms are names, the objects are
+# built afresh for every case (so that a replay sees what the run saw).
+
+PALETTE_FORMS = ('omitted', 'None', 'class', 'subclass', 'object', 'subclass-object', 'object-of-custom-conf',
+                 'synced-object', 'nocolor-object', 'object-of-nocolor-conf')
+PALETTE_OBJECTS = ('object', 'subclass-object', 'object-of-custom-conf', 'synced-object', 'nocolor-object',
+                   'object-of-nocolor-conf')
+PALETTE_COLORLESS = ('nocolor-object', 'object-of-nocolor-conf')
+CONF_FORMS = ('omitted', 'None', 'fresh', 'custom', 'nocolor', 'custom-nocolor')
+CONF_COLORLESS = ('nocolor', 'custom-nocolor')
+NO_COLOR_FORMS = ('True', 'omitted', 'False', 'None')
+CUSTOM_CONF = {"NAME": "BLUE/YELLOW:underline", "NUMBER": "RED:bold", "KEYWORD": "CYAN:blink", "TEXT": "MAGENTA"}
+
+
+def _mk_subclass():
+    """a user's palette class derived from the printer's one: own syntaxes with defaults, an overridden and an
+    additional formatter"""
+    base = PrettyPrinter.PPPalette
+    return type(base)('C11SubPalette', (base,), {
+        'SYNTAX_DEFAULTS': {"VERIF.C11.NUMBER": "RED/YELLOW:bold,underline", "VERIF.C11.NAME": "NAME:no_bold"},
+        'number': ConfColor("VERIF.C11.NUMBER"),
+        'name': ConfColor("VERIF.C11.NAME"),
+        'extra': ConfColor("VERIF.C11.EXTRA"),
+    })
+
+
+def _mk_conf(form):
+    if form == 'fresh':
+        return ColorsConfig()
+    if form == 'custom':
+        return ColorsConfig(dict(CUSTOM_CONF))
+    if form == 'nocolor':
+        return ColorsConfig(no_color=True)
+    if form == 'custom-nocolor':
+        return ColorsConfig(dict(CUSTOM_CONF), no_color=True)
+    raise ValueError(form)
+
+
+def color_kwargs(cspec):
+    """keyword arguments of the printer call for a colour specification"""
+    if cspec is None:
+        return {'no_color': True}
+    pform, cform, nform = cspec
+    kw = {}
+    base = PrettyPrinter.PPPalette
+    if pform == 'None':
+        kw['palette'] = None
+    elif pform == 'class':
+        kw['palette'] = base
+    elif pform == 'subclass':
+        kw['palette'] = _mk_subclass()
+    elif pform == 'object':
+        kw['palette'] = base()
+    elif pform == 'subclass-object':
+        kw['palette'] = _mk_subclass()()
+    elif pform == 'object-of-custom-conf':
+        kw['palette'] = base(_mk_conf('custom'))
+    elif pform == 'synced-object':
+        kw['palette'] = _mk_subclass()(synced=True)
+    elif pform == 'nocolor-object':
+        kw['palette'] = base(no_color=True)
+    elif pform == 'object-of-nocolor-conf':
+        kw['palette'] = _mk_subclass()(_mk_conf('nocolor'))
+    elif pform != 'omitted':
+        raise ValueError(cspec)
+    if cform == 'None':
+        kw['colors_conf'] = None
+    elif cform != 'omitted':
+        kw['colors_conf'] = _mk_conf(cform)
+    if nform != 'omitted':
+        kw['no_color'] = {'True': True, 'False': False, 'None': None}[nform]
+    return kw
+
+
+def colorless_by(cspec):
+    """which parts of the specification ask for no colours (from the documentation quoted above)"""
+    pform, cform, nform = cspec
+    by = []
+    if nform == 'True':
+        by.append('no_color=True')
+    if pform in PALETTE_COLORLESS:
+        by.append('no-colour palette object')
+    if cform in CONF_COLORLESS:
+        by.append('no-colour config')
+    return by
+
+
+def valid_cspec(cspec):
+    """inside the quantifier: the call is documented (a ready palette object excludes colors_conf) and asks for
+    output without colours in at least one way"""
+    pform, cform, nform = cspec
+    if pform in PALETTE_OBJECTS and cform not in ('omitted', 'None'):
+        return False
+    return bool(colorless_by(cspec))
+
+
+def all_cspecs():
+    return [c for c in itertools.product(PALETTE_FORMS, CONF_FORMS, NO_COLOR_FORMS) if valid_cspec(c)]
+
+
+def palette_kind(cspec):
+    if cspec is None or cspec[0] in ('omitted', 'None'):
+        return 'default-palette'
+    return 'palette-object' if cspec[0] in PALETTE_OBJECTS else 'palette-class'
+
+
+def describe_cspec(cspec):
+    if cspec is None:
+        return 'no_color=True'
+    pform, cform, nform = cspec
+    return f"palette: {pform}, colors_conf: {cform}, no_color: {nform}"
 
 
 # --------------------------------------------------------------------------- observation
@@ -81,9 +205,9 @@ def _quiet():
         sys.stderr, sys.stdout = old_err, old_out
 
 
-def observe(v, mode):
+def observe(v, mode, cspec=None):
     """the three observations of one printing: whole text, lines, str() of the result"""
-    return observe_all(v, mode)[:3]
+    return observe_all(v, mode, cspec)[:3]
 
 
 def _interleave(it_a, it_b):
@@ -99,19 +223,20 @@ def _interleave(it_a, it_b):
     return got_a, got_b
 
 
-def observe_all(v, mode):
-    """whole text, lines converted at the moment they are yielded, str() of the result, and `held`:
+def observe_all(v, mode, cspec=None):
+    """cspec: colour specification (None = the plain no_color=True).  -> whole text, lines converted at the moment they are yielded, str() of the result, and `held`:
     {discipline: line texts} for the disciplines that keep the yielded line objects and convert them to text
     only after the iteration has finished"""
     with _quiet(), _budget(BUDGET_S):
         printer = PrettyPrinter(fmt_json=(mode == 'json'))
-        res = printer(v, no_color=True)
+        kwargs = color_kwargs(cspec)      # one palette / config object per case, used by both printings
+        res = printer(v, **kwargs)
         text = res.plain_text()
         lines = [ln.plain_text() for ln in res]
         colored = str(res)
         held = {}
         # a fresh result, never asked for its whole text: collect, convert later
-        kept = list(printer(v, no_color=True))
+        kept = list(printer(v, **kwargs))
         held['list(result), lines converted afterwards'] = [ln.plain_text() for ln in kept]
         held['str: list(result), str(line) afterwards vs str(result)'] = [str(ln) for ln in kept]
         # two iterators of the result that already produced the whole text, advanced alternately
@@ -271,13 +396,16 @@ def scalar_defect(v, mode):
     return False
 
 
-def check_value(v, mode):
-    """all clauses on one (value, mode).  -> (fails [(obligation, key, text)], diags [text], info)"""
+def check_value(v, mode, cspec=None):
+    """all clauses on one (value, mode, colour specification).
+    -> (fails [(obligation, key, text)], diags [text], info)"""
     fails, diags = [], []
     ob_rt = f"C11.{mode}_roundtrip"
     what = f"{mode} mode, value {short(repr(v))}"
+    if cspec is not None:
+        what = f"{mode} mode, colours given as [{describe_cspec(cspec)}], value {short(repr(v))}"
     try:
-        text, lines, colored, held = observe_all(v, mode)
+        text, lines, colored, held = observe_all(v, mode, cspec)
     except _Budget:
         return [(ob_rt, f"{ob_rt}:budget-overrun",
                  f"printing does not finish within {BUDGET_S} s ({what})")], diags, None
@@ -290,7 +418,7 @@ def check_value(v, mode):
         return [(ob_rt, f"{ob_rt}:unparseable:oneline",
                  f"plain_text() returns {type(text).__name__}, not str ({what})")], diags, None
     layout = 'multiline' if '\n' in text else 'oneline'
-    info = {'text': text, 'nlines': text.count('\n') + 1, 'layout': layout}
+    info = {'text': text, 'nlines': text.count('\n') + 1, 'layout': layout, 'printed': colored}
 
     # lines_equal_whole
     if not all(isinstance(ln, str) for ln in lines):
@@ -327,6 +455,22 @@ def check_value(v, mode):
     if colored != text:
         diags.append(f"C11.no_color.str_equals_plain_text: str(result) differs from plain_text() with "
                      f"no_color=True ({what})")
+        # the output as it is printed is str(result): it is the text that has to read back
+        parser = 'json.loads' if mode == 'json' else 'ast.literal_eval'
+        problem = None
+        try:
+            back = json.loads(colored) if mode == 'json' else ast.literal_eval(colored)
+            if not teq(back, v):
+                problem = f"reads back as a different value: {short(repr(back))}"
+        except (ValueError, SyntaxError, RecursionError, MemoryError, TypeError) as e:
+            problem = f"is rejected by {parser} ({type(e).__name__}: {short(str(e), 100)})"
+        if problem is not None:
+            esc = isinstance(colored, str) and '\x1b' in colored
+            cls = f"escape-characters:{palette_kind(cspec)}" if esc else 'str-output'
+            fails.append((ob_rt, f"{ob_rt}:{cls}",
+                          f"the output as printed, str(result), {problem}"
+                          f"{'; it contains terminal escape sequences although no colours were asked for' if esc else ''}"
+                          f"; str(result) = {short(repr(colored))} ({what})"))
 
     # round trip
     try:
@@ -670,7 +814,7 @@ def contains_nonstring_key(v):
 
 # --------------------------------------------------------------------------- tasks (run in workers)
 
-def _eval(spec, mode, res, keep_info=False):
+def _eval(spec, mode, res, keep_info=False, cspec=None):
     if _OVERRUNS is not None and _OVERRUNS.value >= MAX_OVERRUNS:
         res['skipped'] = res.get('skipped', 0) + 1
         return None
@@ -679,8 +823,10 @@ def _eval(spec, mode, res, keep_info=False):
         return None
     if mode == 'json' and contains_nonstring_key(v):
         raise AssertionError(f"harness: non-string key generated for JSON mode, spec {spec!r}")
-    fails, diags, info = check_value(v, mode)
+    fails, diags, info = check_value(v, mode, cspec)
     case = {'mode': mode, 'spec': list(spec)}
+    if cspec is not None:
+        case['colors'] = list(cspec)
     res['cases'].append((case, bool(info and info['layout'] == 'multiline')))
     for ob, key, text in fails:
         if key.endswith(':budget-overrun') and _OVERRUNS is not None:
@@ -777,9 +923,81 @@ def run_task(task):
             info = _eval(('random', seed, idx), mode, res)
             if info is not None and info['layout'] == 'multiline':
                 hit('multi-line:random')
+    elif tag == 'colors':
+        _, mode, pairs = task
+        for spec, cspec in pairs:
+            cspec = tuple(cspec)
+            info = _eval(tuple(spec), mode, res, cspec=cspec)
+            if info is None:
+                continue
+            # reach: the forms that took part in a printing that produced a text
+            hit(f"colors:palette={cspec[0]}")
+            hit(f"colors:colors_conf={cspec[1]}")
+            hit(f"colors:no_color={cspec[2]}")
+            if info['layout'] == 'multiline':
+                hit('multi-line:colors')
+            by = colorless_by(cspec)
+            if by == ['no_color=True']:
+                # everything but the no_color argument is coloured - really?  The same arguments without no_color
+                # (event detection only; a fresh set of objects)
+                try:
+                    with _quiet(), _budget(BUDGET_S):
+                        kw = color_kwargs((cspec[0], cspec[1], 'omitted'))
+                        same_value = value_from_spec(tuple(spec), mode)
+                        vivid = '\x1b' in str(PrettyPrinter(fmt_json=(mode == 'json'))(same_value, **kw))
+                except BaseException as e:      # noqa  (event detection only)
+                    if isinstance(e, KeyboardInterrupt):
+                        raise
+                    vivid = False
+                if vivid:
+                    kind = palette_kind(cspec)
+                    hit(f"colors: no_color=True overrides a coloured {kind}"
+                        f"{' / config' if cspec[1] in ('fresh', 'custom') else ''}"
+                        f" (the same arguments without no_color give escape sequences)")
+            else:
+                hit('colors: no colours asked for by ' + ' + '.join(by))
     else:
         raise ValueError(task)
     return res
+
+
+# values printed under the colour specifications: every kind of leaf (keys, strings, numbers, constants, empty
+# containers), one-line and multi-line, wrapped lists, nesting
+def color_value_specs(mode, seed, thorough):
+    """-> (core specs: printed under every colour specification, more specs: each under a rotating subset)"""
+    n_tiny = len(tiny_values())
+    core = [('tiny', i) for i in (0, 2, 4, 7, 9)]                      # 0, "a", True, 1.5, {}
+    core += [('tiny', i) for i in range(10, n_tiny, 67)]
+    core += [('flat', 'dict', 'mix', 0, 120, '', False), ('flat', 'list', 'mix', 0, 230, 'd', True),
+             ('flat', 'list', 'int', 3, 340, 'l', False), ('flat', 'dict', 'str', 7, 210, 'dl', True),
+             ('multi', 'dict', 'mix', 0, 196, 'd', True)]
+    if mode == 'python':
+        core.append(('flat', 'dictint', 'mix', 0, 215, 'l', True))
+    more = [('tiny', i) for i in range(3, n_tiny, 13 if not thorough else 5)]
+    for kind in ('list', 'dict'):
+        for ekind, ew in (('mix', 0), ('int', 1), ('str', 7)):
+            for L in ((190, 210, 340) if not thorough else (60, 150, 190, 197, 198, 199, 200, 210, 340, 520)):
+                for path, sib in (('', False), ('dl', True)) if not thorough else all_wrappers()[::3]:
+                    more.append(('flat', kind, ekind, ew, L, path, sib))
+    more += [('multi', 'list', 'mix', 0, 194, 'l', False), ('elephant', 152, 'mid', 1, 40, 'int', 'd')]
+    more += [('random', seed, i) for i in range(24 if not thorough else 200)]
+    return core, more
+
+
+def color_tasks(mode, seed, thorough):
+    cspecs = all_cspecs()
+    core, more = color_value_specs(mode, seed, thorough)
+    pairs = [(spec, c) for spec in core for c in cspecs]
+    if thorough:
+        pairs += [(spec, c) for spec in more for c in cspecs]
+    else:
+        # every further value under 7 specifications, rotating through all of them (stride coprime to the number)
+        n = len(cspecs)
+        stride = next(k for k in range(n // 7 + 1, 2 * n) if math.gcd(k, n) == 1)
+        for i, spec in enumerate(more):
+            pairs += [(spec, cspecs[(i + j * stride) % n]) for j in range(7)]
+    per = 150
+    return [('colors', mode, pairs[k:k + per]) for k in range(0, len(pairs), per)]
 
 
 def make_tasks(tier, seed):
@@ -829,6 +1047,8 @@ def make_tasks(tier, seed):
                     for L in range(T_ONELINE - off - 6, T_ONELINE - off + 7):
                         specs.append(('multi', outer, ekind, ew, L, path, sib))
         tasks.append(('speclist', mode, specs))
+        # the documented ways of passing colours / of asking for no colours
+        tasks += color_tasks(mode, seed, thorough)
         # tiny exhaustive scope
         tasks.append(('speclist', mode, [('tiny', i) for i in range(len(tiny_values()))]))
         # seeded random values, depth <= 4
@@ -846,7 +1066,25 @@ REQUIRED_REACH = (['one-line<->multi-line flip', 'per-line wrap', 'wrap over >= 
                   + [f"flip:{k}@off{o}" for k in ('list', 'dict') for o in OFFSETS]
                   + [f"wrap:list@off{o}" for o in OFFSETS]
                   + ['multi-line:random', 'multi-line:elephant', 'multi-line:multi']
-                  + [EV_HELD, EV_HELD_BRACKET])
+                  + [EV_HELD, EV_HELD_BRACKET]
+                  + [f"colors:palette={f}" for f in PALETTE_FORMS]
+                  + [f"colors:colors_conf={f}" for f in CONF_FORMS]
+                  + [f"colors:no_color={f}" for f in NO_COLOR_FORMS]
+                  + ['multi-line:colors',
+                     'colors: no_color=True overrides a coloured palette-object'
+                     ' (the same arguments without no_color give escape sequences)',
+                     'colors: no_color=True overrides a coloured palette-class'
+                     ' (the same arguments without no_color give escape sequences)',
+                     'colors: no_color=True overrides a coloured palette-class / config'
+                     ' (the same arguments without no_color give escape sequences)',
+                     'colors: no_color=True overrides a coloured default-palette'
+                     ' (the same arguments without no_color give escape sequences)',
+                     'colors: no_color=True overrides a coloured default-palette / config'
+                     ' (the same arguments without no_color give escape sequences)',
+                     'colors: no colours asked for by no-colour palette object',
+                     'colors: no colours asked for by no-colour config',
+                     'colors: no colours asked for by no_color=True + no-colour palette object',
+                     'colors: no colours asked for by no_color=True + no-colour config'])
 
 
 def run(b):
@@ -881,6 +1119,12 @@ def replay_case(case):
         v = ast.literal_eval(case['value'])
     else:
         v = value_from_spec(tuple(case['spec']), mode)
-    fails, diags, info = check_value(v, mode)
+    cspec = tuple(case['colors']) if case.get('colors') else None
+    if cspec is not None and not (len(cspec) == 3 and cspec[0] in PALETTE_FORMS and cspec[1] in CONF_FORMS
+                                  and cspec[2] in NO_COLOR_FORMS and valid_cspec(cspec)):
+        raise ValueError(f"not a colour specification of the explored space: {cspec!r}")
+    fails, diags, info = check_value(v, mode, cspec)
     return (not fails), {'failed': [f"{ob}: {text}" for ob, _, text in fails],
-                         'output': short(info['text'], 2000) if info else None}
+                         'output': short(info['text'], 2000) if info else None,
+                         'printed_differs_from_plain_text': (short(repr(info['printed']), 2000)
+                                                             if info and info['printed'] != info['text'] else None)}
